@@ -207,6 +207,9 @@ where
         v.push(Op::CloneSwap);
         v.push(Op::SerdeSwap);
         v.push(Op::TouchMut);
+        if s.dt.number_of_cells() >= 3 {
+            v.push(Op::RepairLocalFacets { a: 0, b: 1, c: 2 });
+        }
         v
     }
     fn step(&self, s: &St<K, D>, op: &Op, hist: &[Op]) -> Option<St<K, D>> {
